@@ -58,7 +58,7 @@ func goGobNorm(kind string, data []byte) interface{} {
 
 func genGobCases(r *rng, n int, tier string, cw *caseWriter) {
 	for _, d := range codecDocs(r, n, tier) {
-		if !gobKinds[d.kind] || d.phase == 3 {
+		if !gobKinds[d.kind] || (d.phase == 3 && !isRefSpelling(d)) {
 			continue
 		}
 		data := d.doc.bytes()
@@ -132,13 +132,24 @@ func checkC14(in codecInput) []cfinding {
 func oracleC14(r *rng, n int, tier string) *oracleResult {
 	t := newTally("C14")
 	for _, d := range codecDocs(r, n, tier) {
-		if !gobKinds[d.kind] || d.phase == 3 || !d.nf {
+		if !gobKinds[d.kind] || ((d.phase == 3 || !d.nf) && !isRefSpelling(d)) {
 			continue
 		}
 		in := docInput(d)
 		t.eval(in, d.doc.nonTrivial(), checkC14(in))
 	}
 	return dedupFailures(t.res)
+}
+
+// isRefSpelling: the systematic documents that carry every odd spelling of a reference ("#", "", "//", ...): whatever such a
+// document decodes to has to survive the transport like any other value.
+func isRefSpelling(d cdoc) bool {
+	for _, t := range d.tags {
+		if t == "mutation:ref" {
+			return true
+		}
+	}
+	return false
 }
 
 func init() {
